@@ -36,6 +36,10 @@ func reasonedDrop(call *ssa.Call) (string, bool) {
 		return "formatted write into a strings.Builder / bytes.Buffer cannot fail", true
 	case pkg == "fmt" && strings.HasPrefix(f.Name(), "Fprint") && len(call.Call.Args) > 0 && isStdStreamWriter(call.Call.Args[0]):
 		return "formatted write to a standard stream (through a buffered writer); a closed stream is outside the fault classes of C16", true
+	case pkg == "bufio" && recv == "Writer" && f.Name() == "Flush" && len(call.Call.Args) > 0 && isStdStreamWriter(call.Call.Args[0]):
+		return "flush of a buffered writer on a standard stream; a closed stream is outside the fault classes of C16", true
+	case pkg == "os" && recv == "File" && f.Name() == "Close" && len(call.Call.Args) > 0 && openedReadOnly(call.Call.Args[0], call.Parent(), 0):
+		return "closing a file that was opened with os.Open and only read: nothing that was written can be lost", true
 	case pkg == "fmt" && (strings.HasPrefix(f.Name(), "Print")):
 		return "printing to stdout; a closed stdout is outside the fault classes of C16", true
 	case pkg == "os" && recv == "File" && (f.Name() == "WriteString" || f.Name() == "Write"):
@@ -48,6 +52,55 @@ func reasonedDrop(call *ssa.Call) (string, bool) {
 		}
 	}
 	return "", false
+}
+
+// openedReadOnly: the *os.File is the result of os.Open (possibly kept in a local variable that a
+// deferred closure captured).
+func openedReadOnly(v ssa.Value, fn *ssa.Function, depth int) bool {
+	if depth > 4 || fn == nil {
+		return false
+	}
+	switch x := v.(type) {
+	case *ssa.Extract:
+		if oc, ok := x.Tuple.(*ssa.Call); ok && x.Index == 0 {
+			return isFn(staticCallee(&oc.Call), "os", "Open")
+		}
+	case *ssa.Phi:
+		for _, e := range x.Edges {
+			if isNilConst(e) {
+				continue
+			}
+			if !openedReadOnly(e, fn, depth+1) {
+				return false
+			}
+		}
+		return len(x.Edges) > 0
+	case *ssa.UnOp:
+		if x.Op != token.MUL {
+			return false
+		}
+		cell := allocOf(x.X, fn)
+		if cell == nil {
+			return false
+		}
+		n := 0
+		for _, r := range referrers(cell) {
+			if st, ok := r.(*ssa.Store); ok && st.Addr == ssa.Value(cell) {
+				if isNilConst(st.Val) {
+					continue
+				}
+				n++
+				if !openedReadOnly(st.Val, cell.Parent(), depth+1) {
+					return false
+				}
+			}
+		}
+		return n > 0
+	case *ssa.FreeVar:
+		// captured by value is not how go/ssa does it, but be complete
+		return false
+	}
+	return false
 }
 
 // isMemoryWriter: the io.Writer is a *strings.Builder or *bytes.Buffer.
